@@ -77,7 +77,15 @@ def run(tier, seed, build):
                 "(plain / async functions, named lambdas, classes with __init__, static methods, namedtuples, enums, declared / "
                 "ignored / excluded functions, imports, module-level statements of every kind) through the real main() with "
                 "-o results -f 0 vs the Lean model Pipeline.run: outcome, printed document, ordered diagnostics of all three "
-                "stages, IR after result generation; a sample through the CLI subprocess")
+                "stages, IR after result generation; a sample through the CLI subprocess. Project stage: generated multi-file "
+                "projects (target + 0-3 followed modules in packages / namespace packages; same-named same-signature helpers and "
+                "classes in different files; call forests of any depth with bare arguments, or depth-one graphs with attribute / "
+                "subscript / keyword / omitted arguments and instances stored in names, attributes and items) through the real "
+                "main() with --follow-imports 1 and the CLI, judged by a closure oracle computed from the source text; a fourth of them "
+                "mixes everything (compound arguments at depth, imported classes, variadic callees, repeated calls, recursion) and "
+                "a deviation there counts as a known finding only under its syntactic feature AND if the Lean project model "
+                "(Project.run: every file's root context and walk, location-aware resolver, one store) prints the same entry; "
+                "the model's document must equal the real one on every project")
     rng = random.Random(seed)
     n_rand, n_clean = (250, 250) if tier == "quick" else (4000, 3000)
     programs = [(name, src) for name, src in CORPUS]
@@ -148,11 +156,18 @@ def run(tier, seed, build):
     # for a sample, the real CLI in a subprocess
     from props import pipeline
     pipeline.run_pipeline_stage(res, random.Random(seed + 7103), 60 if tier == "quick" else 800, model,
-                                cli_sample=6 if tier == "quick" else 40)
+                                cli_sample=6 if tier == "quick" else 40, class_targets=True)
+    # ---- projects (target + followed local modules): Tie B against the Lean project model + the source-level oracle end to end through main() / the CLI with --follow-imports 1,
+    # judged by a closure oracle computed from the SOURCE TEXT of every file (module-local resolution of callees,
+    # the instance an initialiser is bound to = the spelled assignment target)
+    from props import c03proj
+    c03proj.run_project_stage(res, random.Random(seed + 9241), 120 if tier == "quick" else 2400, model,
+                              cli_sample=8 if tier == "quick" else 80)
     res.assumptions = [
         "own IRs are taken from the real analyser (C01/C02 are about them); the resolver is the real find_call_target_and_ir (C06/C08/C11/C12 are about it)",
         "binding oracle = real CPython calls (see C04)",
         "[interp] a call Python rejects contributes no demanded substitution",
+        "project stage: own accesses, call sites, callee resolution (Python's module-level scoping) and binding (CPython) are all read from the sources by py/props/c03proj.py; only import forms rattr resolves are generated (un-aliased from-imports, `import m [as a]`, `from p import m`), static methods are called after their class is defined; [interp] an instance that is not stored has no expression for `self`",
         "pipeline stage: follow-imports 0, no starred imports; location facts (module found / blacklisted / excluded names) from the real locator functions; modules whose document depends on CPython's hash order of equal-named Call symbols are skipped (counted)",
     ]
     return res
@@ -161,6 +176,9 @@ def run(tier, seed, build):
 def replay(path):
     import json
     j = json.load(open(path))
+    if "files" in j.get("case", {}):
+        from props import c03proj
+        return c03proj.replay_case(j["case"])
     src = j["case"]["source"]
     file_ir = rl.analyse_source(src)
     snap = rl.snapshot(file_ir)
